@@ -1,7 +1,8 @@
 """C07 (whole runs) — correspondence for the table-driven models of `Cli/PhaseTable.lean` and `Cli/Run.lean`.
 
 Suites
-  clirun     : a real run of `cnfgen … randkcnf | randkxor | kcolor …` in this process (stdout captured) with every call of
+  clirun     : a real run of `cnfgen|pbgen … randkcnf | randkxor | kcolor | tseitin | php | domset | kclique …` (graph arguments gnp /
+               gnm / gnd / bipartite samplers / files / `save`, `-T` chains) in this process (stdout captured) with every call of
                the `random` module RECORDED (request and answer, in order; the calls networkx makes for `gnp` included).  The
                recorded draws are handed to the Lean model of the whole run (`cliRun`), which must (a) ask for exactly these
                draws, in this order, with these arguments — a different request is a `stuck`/`DrawMismatch`, an unused or
@@ -19,6 +20,9 @@ Suites
 """
 import contextlib
 import io
+import os
+import shutil
+import tempfile
 import random
 import sys
 from fractions import Fraction
@@ -38,16 +42,24 @@ graph_build = importlib.import_module("cnfgen.clitools.graph_build")
 from cnfgen.clitools.cmdline import CLIError
 
 RULE = ("clirun: randkcnf/randkxor [-p] over k,n,m incl. dense and impossible requests; kcolor over gnp N p [t] / empty N / "
-        "complete N with plantclique/addedges/splitedges; each with --seed/-S {0,1,-5,2^31,random}, without seed, with -q; "
+        "complete N with plantclique/addedges/splitedges; kcolor/tseitin (6 charge words, shortcut N [d])/domset/kclique over "
+        "gnm/gnd/gnp with modifiers; php [--functional] [--onto] over glrd/glrm/glrp/regular/empty with plantbiclique/addedges; "
+        "-T chains of shuffle/xorcomp/majcomp/xor/or/maj/flip (valid and invalid) after 6 base formulas; each with --seed/-S {0,1,-5,2^31,random}, without seed, with -q; "
         "distinct = distinct argv; phasetrace: every random sub-command x tool")
 TRUSTED_EXTRA = ["tools/extract_phases.py (ast translator: phase order of cli(), call sites of random, seeded generators, "
                  "static hazards -> Generated/Phases.lean)",
                  "lean/CnfgenModel/Cli/HazardReview.lean (reviewed snapshot of the static hazards, one justification per entry)"]
 ASSUMPTIONS = ["random.seed(s) installs a state that is a function of s only (sigma)",
                "networkx.gnp_random_graph draws one random() per pair of combinations(range(n), 2) from the generator it is "
-               "given (checked on every gnp case: the recorded draws are replayed by the model)"]
+               "given (checked on every gnp case: the recorded draws are replayed by the model)",
+               "networkx.gnm_random_graph draws through seed.choice(list(G)) only, random_regular_graph through seed.shuffle(stubs) "
+               "only (networkx 3.6.1; checked on every gnm / gnd case: the shim records them, the model of Rand/NxDraws.lean must "
+               "consume exactly them)",
+               "a file named on the command line is read through the path token as written (the model has no cwd): checked by "
+               "running every file case in a fresh directory, and by the hazard review for os.getcwd / abspath"]
 
 UNIT = 1 << 53
+VOC_G, VOC_F, VOC_NX, VOC_SH = 0, 1, 2, 3       # vocabularies of `CliRun.RDraw`
 _mod_random = random
 
 
@@ -63,6 +75,8 @@ class Recording:
         self.unknown = []
         self.shuffle_draws = []     # every choice / shuffle in the vocabulary of the Shuffle model (None = no encoding)
         self.allow_shuffle = False
+        self.stream = []       # ("seed", a) | ("draw", phase, [vocabulary] + encoding or None): ONE stream, in call order
+        self.force = None
 
     # -- installation
     def __enter__(self):
@@ -72,8 +86,27 @@ class Recording:
         rec = self
 
         class Shim(_mod_random.Random):
+            """what networkx gets in place of `random._inst`: the same generator (the saved functions of the module
+            ARE the bound methods of `random._inst`), every call recorded in the vocabulary of Rand/NxDraws.lean"""
             def random(self_inner):
-                return rec.r_random()
+                rec.force = VOC_G
+                try:
+                    return rec.r_random()
+                finally:
+                    rec.force = None
+
+            def choice(self_inner, seq):
+                v = rec.saved["choice"](seq)
+                ok_ = list(seq) == list(range(len(seq)))
+                rec._push([VOC_NX, 1, v] if ok_ else None)
+                rec.events.append(("draw", "g" if rec.in_parse else "f", None, None))
+                return v
+
+            def shuffle(self_inner, x):
+                before = list(x)
+                rec.saved["shuffle"](x)
+                rec._push([VOC_NX, 2] + enc_list(before) + enc_list(x))
+                rec.events.append(("draw", "g" if rec.in_parse else "f", None, None))
 
             def getrandbits(self_inner, k):
                 rec.unknown.append("getrandbits")
@@ -86,6 +119,12 @@ class Recording:
 
             def gnp_random_graph(self_inner, n, p):
                 return networkx.gnp_random_graph(n, p, seed=Shim())
+
+            def gnm_random_graph(self_inner, n, m):
+                return networkx.gnm_random_graph(n, m, seed=Shim())
+
+            def random_regular_graph(self_inner, d, n):
+                return networkx.random_regular_graph(d, n, seed=Shim())
         self.saved_nx = graph_build.networkx
         graph_build.networkx = NxShim()
         # parse window of cnfgen / pbgen
@@ -112,11 +151,33 @@ class Recording:
         return False
 
     # -- wrappers
-    def _add(self, genc, fenc):
+    def _caller_vocab(self):
+        """the vocabulary of the sampler model that makes this call: by the module of the code under test that called
+        `random.<f>` (graphs.py / graph_build.py: graph samplers; transformations/shuffle.py: Shuffle; else formula)"""
+        if self.force is not None:
+            return self.force
+        f = sys._getframe(1)
+        while f is not None and f.f_code.co_filename == __file__:
+            f = f.f_back
+        name = f.f_code.co_filename.replace("\\", "/") if f is not None else ""
+        if name.endswith("cnfgen/graphs.py") or name.endswith("clitools/graph_build.py"):
+            return VOC_G
+        if name.endswith("transformations/shuffle.py"):
+            return VOC_SH
+        return VOC_F
+
+    def _push(self, enc):
+        self.stream.append(("draw", "g" if self.in_parse else "f", enc))
+
+    def _add(self, genc, fenc, shenc=None):
         self.events.append(("draw", "g" if self.in_parse else "f", genc, fenc))
+        v = self._caller_vocab()
+        enc = {VOC_G: genc, VOC_F: fenc, VOC_SH: shenc}[v]
+        self._push([v] + enc if enc is not None else None)
 
     def r_seed(self, a=None, *rest, **kw):
         self.events.append(("seed", a))
+        self.stream.append(("seed", a))
         return self.saved["seed"](a, *rest, **kw)
 
     def r_sample(self, population, k, **kw):
@@ -142,7 +203,7 @@ class Recording:
     def r_choice(self, seq):
         v = self.saved["choice"](seq)
         i = next(j for j, x in enumerate(seq) if x is v or x == v)
-        self._add(None, [1, len(seq), i])
+        self._add(None, [1, len(seq), i], [0, v] if isinstance(v, int) else None)
         self.shuffle_draws.append([0, v] if isinstance(v, int) else None)
         return v
 
@@ -160,9 +221,12 @@ class Recording:
     def r_shuffle(self, x):
         r = self.saved["shuffle"](x)
         # vocabulary of Trans/Shuffle.lean: the content of the list afterwards
-        self.shuffle_draws.append([1] + enc_list(x) if all(isinstance(v, int) for v in x) else None)
+        shenc = [1] + enc_list(x) if all(isinstance(v, int) for v in x) else None
+        self.shuffle_draws.append(shenc)
         self.events.append(("shuffle", len(self.shuffle_draws) - 1))
-        if not self.allow_shuffle:
+        in_shuffle = self._caller_vocab() == VOC_SH
+        self.stream.append(("draw", "g" if self.in_parse else "f", [VOC_SH] + shenc if shenc is not None and in_shuffle else None))
+        if not self.allow_shuffle and not in_shuffle:
             self.unknown.append("shuffle")
         return r
 
@@ -187,6 +251,27 @@ def split_streams(events):
     return r0, rs, seeds, bad
 
 
+def split_stream(stream):
+    """(rng0, sigma, seeds, bad, ng, nf): draws before the first random.seed belong to the initial state, the others to
+    the state random.seed installed (cli() seeds a second time after parsing: the state answers the calls of the parse
+    window and, from the start again, the calls made afterwards: one ordered stream for each of the two)"""
+    r0, rs, seeds, bad, ng, nf = {"g": [], "f": []}, {"g": [], "f": []}, [], None, 0, 0
+    for e in stream:
+        if e[0] == "seed":
+            seeds.append(e[1])
+            continue
+        _, phase, enc = e
+        if phase == "g":
+            ng += 1
+        else:
+            nf += 1
+        if enc is None:
+            bad = "a draw of the {} phase has no encoding in the vocabulary of its caller".format(phase)
+            continue
+        (rs if seeds else r0)[phase].append(enc)
+    return r0, rs, seeds, bad, ng, nf
+
+
 def enc_stream(ds):
     out = [len(ds)]
     for d in ds:
@@ -206,7 +291,7 @@ def is_floatable(tok):
         return False
 
 
-def enc_world(argv):
+def enc_world(argv, files=()):
     toks = []
     for t in argv:
         if is_floatable(t) and t not in toks:
@@ -231,7 +316,14 @@ def enc_world(argv):
     hdr = [len(base)]
     for k, v in base:
         hdr += enc_str(k) + enc_str(v)
-    return tab + ftab + hdr + [1 if graphs.has_dot_library() else 0, 40]
+    return tab + ftab + hdr + [1 if graphs.has_dot_library() else 0, 40] + enc_files(files)
+
+
+def enc_files(files):
+    out = [len(files)]
+    for k, v in files:
+        out += enc_str(k) + enc_str(v)
+    return out
 
 
 def enc_argv(argv):
@@ -241,32 +333,55 @@ def enc_argv(argv):
     return out
 
 
-def run_real(argv, pre_seed):
-    """(answer string, events, text) of one real run in this process"""
-    _mod_random.seed(pre_seed)
-    for _ in range(pre_seed % 5):
-        _mod_random.random()
-    buf = io.StringIO()
-    with Recording() as rec:
-        try:
-            with contextlib.redirect_stdout(buf), contextlib.redirect_stderr(io.StringIO()):
-                (tool_pbgen if argv[0] == "pbgen" else tool_cnfgen).cli(list(argv), mode="output")
-            out = ("text", buf.getvalue())
-        except CLIError:
-            out = ("E", "cliError")
-        except SystemExit:
-            out = ("E", "cliError")
-        except Exception as e:  # noqa
-            out = ("E", "crash:" + type(e).__name__)
+def run_real(argv, pre_seed, files=None):
+    """(answer string, events, text) of one real run in this process; with `files` (name -> content) the run happens in a
+    fresh directory that contains exactly these files, and `rec.written` lists the files it left behind (name, text)"""
+    tmp = old = None
+    if files is not None:
+        tmp = tempfile.mkdtemp(prefix="c07run")
+        for k, v in files.items():
+            with open(os.path.join(tmp, k), "w", encoding="utf-8", newline="") as f:
+                f.write(v)
+        old = os.getcwd()
+        os.chdir(tmp)
+    try:
+        _mod_random.seed(pre_seed)
+        for _ in range(pre_seed % 5):
+            _mod_random.random()
+        buf = io.StringIO()
+        with Recording() as rec:
+            try:
+                with contextlib.redirect_stdout(buf), contextlib.redirect_stderr(io.StringIO()):
+                    (tool_pbgen if argv[0] == "pbgen" else tool_cnfgen).cli(list(argv), mode="output")
+                out = ("text", buf.getvalue())
+            except CLIError:
+                out = ("E", "cliError")
+            except SystemExit:
+                out = ("E", "cliError")
+            except Exception as e:  # noqa
+                out = ("E", "crash:" + type(e).__name__)
+        rec.written = []
+        if tmp is not None:
+            for k in sorted(os.listdir(tmp)):
+                with open(os.path.join(tmp, k), encoding="utf-8", newline="") as f:
+                    txt = f.read()
+                if files.get(k) != txt:
+                    rec.written.append((k, txt))
+    finally:
+        if tmp is not None:
+            os.chdir(old)
+            shutil.rmtree(tmp, ignore_errors=True)
     return out, rec
 
 
 class RunCase(Case):
     """the request depends on what the real run drew: it is built when first needed"""
-    __slots__ = ("_argv", "_req", "_ans", "_state")
+    __slots__ = ("_argv", "_req", "_ans", "_state", "_files", "_light")
 
-    def __init__(self, argv, cls):
+    def __init__(self, argv, cls, files=None, light=False):
         self._argv = list(argv)
+        self._files = files
+        self._light = light          # quick tier: the second real run (other generator state) only when the trace is suspicious
         self._req = None
         self._ans = None
         self._state = {}
@@ -276,14 +391,16 @@ class RunCase(Case):
     def _prepare(self):
         if self._req is not None:
             return
-        out, rec = run_real(self._argv, 4242)
-        r0, rs, seeds, bad = split_streams(rec.events)
+        out, rec = run_real(self._argv, 4242, self._files)
+        r0, rs, seeds, bad, ng, nf = split_stream(rec.stream)
         self._state.update(out=out, seeds=seeds, bad=bad, unknown=list(rec.unknown), events=rec.events)
-        self._req = req("clirun", enc_str(self._argv[0]), enc_argv(self._argv), enc_world(self._argv), enc_rng(r0), enc_rng(rs))
+        self._req = req("clirun", enc_str(self._argv[0]), enc_argv(self._argv), enc_world(self._argv, sorted((self._files or {}).items())), enc_rng(r0), enc_rng(rs))
+        self._state["written"] = rec.written
         if out[0] == "text":
-            ng = sum(1 for e in rec.events if e[0] == "draw" and e[1] == "g")
-            nf = sum(1 for e in rec.events if e[0] == "draw" and e[1] == "f")
-            self._ans = ok("T {} {} ".format(ng, nf) + " ".join(str(ord(c)) for c in out[1]))
+            wr = " W {}".format(len(rec.written))
+            for k, v in rec.written:
+                wr += " " + " ".join(str(x) for x in enc_str(k) + enc_str(v))
+            self._ans = ok("T {} {} ".format(ng, nf) + " ".join(str(ord(c)) for c in out[1]) + wr)
         else:
             self._ans = ok("E " + out[1])
 
@@ -317,8 +434,11 @@ class RunCase(Case):
         first_seed = next((i for i, e in enumerate(st["events"]) if e[0] == "seed"), None)
         suspicious = any(s != seed for s in st["seeds"]) or \
             (st["out"][0] == "text" and any(e[0] == "draw" for e in st["events"][:first_seed]))
-        for pre in ((977, 31, 5, 123456, 8) if suspicious else (977,)):
-            out2, _ = run_real(self._argv, pre)
+        for pre in ((977, 31, 5, 123456, 8) if suspicious else (() if self._light else (977,))):
+            out2, rec2 = run_real(self._argv, pre, self._files)
+            if out2 == st["out"] and rec2.written != st["written"]:
+                return {"argv": self._argv, "saved_graph_files_differ_between_generator_states":
+                        [st["written"][:1], rec2.written[:1]]}
             if out2 != st["out"]:
                 a = st["out"][1].split("\n") if st["out"][0] == "text" else [st["out"][1]]
                 b = out2[1].split("\n") if out2[0] == "text" else [out2[1]]
@@ -340,10 +460,11 @@ def seed_of(argv):
 
 # ------------------------------------------------------------------ whole runs of cnfshuffle
 class ShuffleRunCase(Case):
-    __slots__ = ("_argv", "_text", "_req", "_ans", "_state")
+    __slots__ = ("_argv", "_text", "_req", "_ans", "_state", "_files")
 
-    def __init__(self, argv, text, cls):
+    def __init__(self, argv, text, cls, files=None):
         self._argv, self._text = list(argv), text
+        self._files = files
         self._req = None
         self._ans = None
         self._state = {}
@@ -359,6 +480,14 @@ class ShuffleRunCase(Case):
         stdin = io.StringIO(self._text)
         stdin.name = "<stdin>"
         sys.stdin = stdin
+        tmp = oldcwd = None
+        if self._files is not None:
+            tmp = tempfile.mkdtemp(prefix="c07sh")
+            for k, v in self._files.items():
+                with open(os.path.join(tmp, k), "w", encoding="utf-8", newline="") as f:
+                    f.write(v)
+            oldcwd = os.getcwd()
+            os.chdir(tmp)
         try:
             with Recording() as rec:
                 rec.allow_shuffle = True
@@ -370,8 +499,20 @@ class ShuffleRunCase(Case):
                     out = ("E", "cliError")
                 except Exception as e:  # noqa
                     out = ("E", "crash:" + type(e).__name__)
+            rec.written = []
+            if tmp is not None:
+                import gc
+                gc.collect()        # argparse.FileType handles are closed by the collector
+                for k in sorted(os.listdir(tmp)):
+                    with open(os.path.join(tmp, k), encoding="utf-8", newline="") as f:
+                        txt = f.read()
+                    if self._files.get(k) != txt:
+                        rec.written.append((k, txt))
         finally:
             sys.stdin = old
+            if tmp is not None:
+                os.chdir(oldcwd)
+                shutil.rmtree(tmp, ignore_errors=True)
         return out, rec
 
     def _prepare(self):
@@ -390,15 +531,18 @@ class ShuffleRunCase(Case):
                 bad = True
                 continue
             (rs if seeds else r0).append(d)
-        self._state.update(out=out, seeds=seeds, bad=bad, unknown=list(rec.unknown), n=len(r0) + len(rs))
+        self._state.update(out=out, seeds=seeds, bad=bad, unknown=list(rec.unknown), n=len(r0) + len(rs), written=rec.written)
         base = [(a, b) for a, b in cnfgen.CNF().header.items() if a != "description"]
         hdr = [len(base)]
         for a, b in base:
             hdr += enc_str(a) + enc_str(b)
         self._req = req("shufflerun", enc_argv(self._argv), enc_str(self._text), enc_str("<stdin>"), hdr,
-                        enc_stream(r0), enc_stream(rs))
+                        enc_files(sorted((self._files or {}).items())), enc_stream(r0), enc_stream(rs))
         if out[0] == "text":
-            self._ans = ok("T {} ".format(self._state["n"]) + " ".join(str(ord(c)) for c in out[1]))
+            wr = " W {}".format(len(rec.written))
+            for k, v in rec.written:
+                wr += " " + " ".join(str(x) for x in enc_str(k) + enc_str(v))
+            self._ans = ok("T {} ".format(self._state["n"]) + " ".join(str(ord(c)) for c in out[1]) + wr)
         else:
             self._ans = ok("E " + out[1])
 
@@ -427,7 +571,9 @@ class ShuffleRunCase(Case):
         if seed is None or seed == "":
             return None        # no seed (an empty token is not an integer seed): nothing is promised
         for pre in (977, 31):
-            out2, _ = self._run(pre)
+            out2, rec2 = self._run(pre)
+            if out2 == st["out"] and rec2.written != st["written"]:
+                return {"argv": self._argv, "output_files_differ_between_generator_states": [st["written"][:1], rec2.written[:1]]}
             if out2 != st["out"]:
                 a = st["out"][1].split("\n") if st["out"][0] == "text" else [st["out"][1]]
                 b = out2[1].split("\n") if out2[0] == "text" else [out2[1]]
@@ -459,6 +605,15 @@ def shufflerun_cases(ctx):
             if j % 3 == 1:
                 argv = ["cnfshuffle"] + o + (["--seed", sd] if sd is not None else [])
             out.append(ShuffleRunCase(argv, t, cls="seed" if sd not in (None, "") else ("emptyseed" if sd == "" else "noseed")))
+    # -i / -o: the input file is part of the environment, the output file part of the result
+    files = {"in.cnf": SHUFFLE_TEXT, "bad.cnf": "p cnf 1 1\n2 0\n", "crlf.cnf": "p cnf 2 2\r\n1 -2 0\r\n2 0\r\n"}
+    for k, (io_opts, sd) in enumerate([(["-i", "in.cnf"], "3"), (["-i", "in.cnf", "-o", "out.cnf"], "0"), (["-o", "out.cnf"], "-7"),
+                                       (["--input", "crlf.cnf", "--output", "o2"], "11"), (["-i", "missing.cnf"], "1"),
+                                       (["-i", "bad.cnf", "-o", "out.cnf"], "2"), (["-i", "-", "-o", "-"], "4"),
+                                       (["-i", "in.cnf", "-o", "out.cnf"], None), (["-o", "out.cnf", "-q", "-i", "in.cnf"], "5")]):
+        o = optsets[k % len(optsets)]
+        argv = ["cnfshuffle"] + (["--seed", sd] if sd is not None else []) + o + io_opts
+        out.append(ShuffleRunCase(argv, texts[k % 3], cls="files:" + ("seed" if sd else "noseed"), files=files))
     return out
 
 
@@ -512,11 +667,146 @@ def graph_cmds(rng, tier):
     return out
 
 
+def simple_specs(rng, tier):
+    """random simple graphs through networkx (gnm: seed.choice pairs; gnd: seed.shuffle of the stubs, with restarts) and the
+    in-house ones, with modifiers"""
+    specs = [["gnm", "5", "4"], ["gnm", "6", "9", "plantclique", "3"], ["gnm", "4", "6"], ["gnm", "1", "0"], ["gnm", "5", "0"],
+             ["gnm", "4", "7"], ["gnm", "0", "0"], ["gnm", "5", "3", "addedges", "2", "splitedges", "1"], ["gnm", "x", "2"],
+             ["gnd", "6", "3"], ["gnd", "4", "2"], ["gnd", "5", "3"], ["gnd", "4", "4"], ["gnd", "8", "3", "addedges", "2"],
+             ["gnd", "5", "2", "plantclique", "3"], ["gnd", "6", "0"], ["gnd", "7", "4", "splitedges", "2"], ["gnd", "6"],
+             ["gnp", "5", ".5"], ["gnp", "4", ".5", "2"], ["empty", "4", "addedges", "3"], ["complete", "4"]]
+    if tier == "thorough":
+        for _ in range(20):
+            n = rng.randint(1, 9)
+            sp = rng.choice([["gnm", str(n), str(rng.randint(0, n * (n - 1) // 2 + 1))], ["gnd", str(n), str(rng.randint(0, n))],
+                             ["gnd", str(2 * rng.randint(1, 5)), str(rng.randint(1, 5))]])
+            for opt in rng.sample(["plantclique", "addedges", "splitedges"], rng.randint(0, 2)):
+                sp = sp + [opt, str(rng.randint(0, 3))]
+            specs.append(sp)
+    return specs
+
+
+def bip_specs(rng, tier):
+    specs = [["glrd", "4", "3", "2"], ["glrd", "3", "3", "3"], ["glrd", "3", "2", "0"], ["glrd", "3", "2", "3"],
+             ["glrm", "3", "3", "4"], ["glrm", "3", "2", "6"], ["glrm", "4", "4", "2", "addedges", "2"], ["glrm", "2", "2", "5"],
+             ["regular", "4", "4", "2"], ["regular", "6", "3", "2"], ["regular", "3", "2", "1"], ["regular", "4", "2", "1"],
+             ["glrp", "3", "3", ".5"], ["glrp", "3", "2", "1", "plantbiclique", "2", "1"], ["glrp", "2", "3", "0"],
+             ["glrd", "4", "4", "1", "plantbiclique", "2", "2", "addedges", "3"], ["empty", "3", "2", "addedges", "4"],
+             ["empty", "2", "2"], ["glrd", "4", "3"], ["glrd", "0", "3", "1"]]
+    if tier == "thorough":
+        for _ in range(16):
+            l, r = rng.randint(1, 6), rng.randint(1, 6)
+            sp = rng.choice([["glrd", str(l), str(r), str(rng.randint(0, r))], ["glrm", str(l), str(r), str(rng.randint(0, l * r))],
+                             ["regular", str(l), str(r), str(rng.randint(0, r))], ["glrp", str(l), str(r), str(rng.choice([.25, .5, .75]))]])
+            if rng.random() < .4:
+                sp += ["addedges", str(rng.randint(0, 3))]
+            specs.append(sp)
+    return specs
+
+
+def family_cmds(rng, tier):
+    """the other families of the fragment on random graphs"""
+    S, B = simple_specs(rng, tier), bip_specs(rng, tier)
+    charges = ["random", "randomodd", "randomeven", "first", "zero", "one"]
+    out = []
+    for i, sp in enumerate(S):
+        fam = i % 4
+        if fam == 0 or tier == "thorough":
+            out.append(["kcolor", str(rng.choice([2, 3]))] + sp)
+        if fam == 1 or tier == "thorough":
+            out.append(["tseitin", charges[i % len(charges)]] + sp)
+        if fam == 2 or tier == "thorough":
+            out.append(["domset"] + (["--alternative"] if i % 3 == 0 else []) + [str(rng.choice([1, 2]))] + sp)
+        if fam == 3 or tier == "thorough":
+            out.append(["kclique", str(rng.choice([2, 3]))] + sp)
+    for i, c in enumerate(charges):
+        out.append(["tseitin", c, "gnm", "5", "5"])
+    out += [["tseitin", "random", "gnd", "6", "3"], ["tseitin", "randomodd", "gnp", "5", ".6", "addedges", "1"],
+            ["tseitin", "6", "3"], ["tseitin", "5"], ["tseitin", "5", "3"], ["tseitin", "4", "4"], ["tseitin", "8"],
+            ["tseitin", "bogus", "gnm", "3", "2"], ["tseitin", "random", "empty", "3"], ["domset", "0", "gnm", "4", "3"],
+            ["kclique", "-1", "gnd", "4", "2"]]
+    opts = [[], ["--functional"], ["--onto"], ["--functional", "--onto"]]
+    for i, sp in enumerate(B):
+        out.append(["php"] + opts[i % 4] + sp)
+    return out
+
+
+def chain_cmds(rng, tier):
+    """`-T` chains: the random transformations (and some deterministic ones between them) after random formulas"""
+    bases = [["randkcnf", "3", "6", "5"], ["kcolor", "2", "gnm", "4", "4"], ["randkxor", "2", "5", "3"], ["tseitin", "random", "gnd", "4", "2"],
+             ["php", "glrd", "3", "3", "2"], ["kcolor", "2", "gnp", "4", ".5", "addedges", "1"]]
+    chains = [["-T", "shuffle"], ["-T", "xorcomp", "4", "2"], ["-T", "majcomp", "5", "3"], ["-T", "shuffle", "-T", "shuffle"],
+              ["-T", "xorcomp", "5", "2", "-T", "shuffle"], ["-T", "shuffle", "-T", "majcomp", "4"], ["-T", "xor", "2", "-T", "shuffle"],
+              ["-T", "xorcomp", "4", "2", "-T", "majcomp", "3", "-T", "shuffle"], ["-T", "flip", "-T", "xorcomp", "3", "1"],
+              ["-T", "or", "2", "-T", "majcomp", "6", "3", "-T", "flip"], ["-T", "xorcomp", "2", "3"], ["-T", "majcomp", "0"],
+              ["-T"], ["-T", "shuffle", "-T"], ["-T", "xorcomp", "4", "0"], ["-T", "flip", "-T", "majcomp", "4"]]
+    out = []
+    for i, ch in enumerate(chains):
+        for j, b in enumerate(bases):
+            if tier == "thorough" or (i + j) % 4 == 0:
+                out.append(b + ch)
+    out.append(["randkcnf", "2", "0", "0", "-T", "xorcomp", "3", "2"])      # no variables: obtain_glrd refuses L = 0
+    return out
+
+
+def _graph_text(kind, fmt, n, edges):
+    """a graph file written by the library itself"""
+    if kind == "simple":
+        G = graphs.Graph(n)
+    else:
+        G = graphs.BipartiteGraph(*n)
+    for e in edges:
+        G.add_edge(*e)
+    G.name = "a graph of the harness"
+    buf = io.StringIO()
+    graphs.writeGraph(G, buf, kind, fmt)
+    return buf.getvalue()
+
+
+def file_cmds(rng, tier):
+    """(sub-command words, files): `save` and graph FILE arguments; the content of the files is part of the environment"""
+    n = rng.randint(4, 6)
+    es = sorted(set(tuple(sorted(rng.sample(range(1, n + 1), 2))) for _ in range(n + 1)))
+    bes = sorted(set((rng.randint(1, 3), rng.randint(1, 3)) for _ in range(5)))
+    files = {"g1.kthlist": _graph_text("simple", "kthlist", n, es), "g2.dimacs": _graph_text("simple", "dimacs", n, es),
+             "g3.txt": _graph_text("simple", "kthlist", n, es), "b1.matrix": _graph_text("bipartite", "matrix", (3, 3), bes),
+             "b2.kthlist": _graph_text("bipartite", "kthlist", (3, 3), bes), "bad.kthlist": "c nothing\n3 x\n",
+             "crlf.dimacs": _graph_text("simple", "dimacs", n, es).replace("\n", "\r\n")}
+    cmds = [["kcolor", "2", "gnm", "4", "3", "save", "out.kthlist"], ["kcolor", "2", "gnd", "4", "2", "save", "dimacs", "out.x"],
+            ["kclique", "2", "gnp", "4", ".5", "addedges", "1", "save", "out.dimacs"], ["domset", "1", "gnm", "4", "2", "save", "out.unknown"],
+            ["php", "glrd", "3", "2", "1", "save", "out.matrix"], ["php", "glrm", "2", "3", "3", "addedges", "1", "save", "kthlist", "out"],
+            ["tseitin", "random", "gnm", "4", "4", "plantclique", "3", "save", "out.kthlist"], ["kcolor", "2", "gnm", "3", "2", "save"],
+            ["kcolor", "2", "g1.kthlist"], ["kcolor", "2", "kthlist", "g3.txt"], ["domset", "1", "g2.dimacs", "addedges", "1"],
+            ["kclique", "3", "g1.kthlist", "splitedges", "1"], ["php", "b1.matrix"], ["php", "--onto", "kthlist", "b2.kthlist", "addedges", "2"],
+            ["php", "b1.matrix", "plantbiclique", "1", "2"], ["kcolor", "2", "bad.kthlist"], ["kcolor", "2", "g3.txt"],
+            ["kclique", "2", "crlf.dimacs"], ["kcolor", "2", "matrix", "b1.matrix"],
+            ["kcolor", "2", "g1.kthlist", "splitedges", "2", "save", "out.dimacs"], ["php", "b2.kthlist", "save", "out.matrix"],
+            ["kcolor", "2", "g2.dimacs", "addedges", "1", "save", "g2.dimacs"], ["kcolor", "2", "gnm", "4", "3", "save", "out.kthlist", "-T", "shuffle"]]
+    return [(c, files) for c in cmds]
+
+
 def clirun_cases(ctx):
     rng = common.sub_rng(ctx["seed"], "C07_run", "clirun")
     tier = ctx["tier"]
     prefixes = seed_prefixes(rng, tier)
     out = []
+    for i, (c, files) in enumerate(file_cmds(rng, tier)):
+        p = prefixes[1 + i % (len(prefixes) - 1)]
+        out.append(RunCase(["cnfgen"] + p + c, cls="files:seed", files=files))
+        if i % 8 == 0 or tier == "thorough":
+            out.append(RunCase(["cnfgen"] + c, cls="files:noseed", files=files))
+        if i % 8 == 1 or tier == "thorough":
+            out.append(RunCase(["pbgen"] + p + c, cls="pbgen:files:seed", files=files))
+    # the extended fragment: every command with a seed; every third one also without
+    for i, c in enumerate(family_cmds(rng, tier) + chain_cmds(rng, tier)):
+        p = prefixes[1 + i % (len(prefixes) - 1)]
+        tag = c[0] + ("+T" if "-T" in c else "")
+        out.append(RunCase(["cnfgen"] + p + c, cls=tag + ":seed", light=(tier == "quick" and i % 2 == 1)))
+        if i % 8 == 0 or tier == "thorough":
+            out.append(RunCase(["cnfgen"] + c, cls=tag + ":noseed"))
+        if (tier == "thorough" or i % 8 == 0) and "-T" not in c:
+            out.append(RunCase(["pbgen"] + p + c, cls="pbgen:" + tag + ":seed"))
+    out.append(RunCase(["pbgen", "--seed", "3", "kcolor", "2", "gnm", "3", "2", "-T", "shuffle"], cls="pbgen:+T"))
     cmds = formula_cmds(rng, tier) + graph_cmds(rng, tier)
     for i, c in enumerate(cmds):
         pres = prefixes if tier == "thorough" else ([prefixes[0]] if i % 2 else []) + [prefixes[1 + i % (len(prefixes) - 1)]]
